@@ -162,6 +162,13 @@ fn settings(row: &Row, filler: u64) -> Vec<Setting> {
     let cap = 1000 + m.below(5000);
     v.push(Setting { section: "cache", key: "capacity", value: cap.to_string(), env_value: cap.to_string(), is_default: false });
     v.push(Setting { section: "hnsw", key: "dimension", value: (4 + m.below(60)).to_string(), env_value: "16".into(), is_default: false });
+    // "whatever the remaining settings are": a separate bind host for the HTTP observability
+    // listener (unset / loopback / routable) must not influence the rules about the gRPC bind
+    match m.below(3) {
+        0 => {}
+        1 => v.push(Setting { section: "server", key: "http_host", value: toml_str("127.0.0.1"), env_value: "127.0.0.1".into(), is_default: false }),
+        _ => v.push(Setting { section: "server", key: "http_host", value: toml_str("0.0.0.0"), env_value: "0.0.0.0".into(), is_default: false }),
+    }
     v
 }
 
